@@ -43,6 +43,9 @@ RAW = {"openapi": "3.0.2", "info": {"title": "t", "version": "1"}, "paths": {
     "/q": {"get": dict(_OK, parameters=[_p("q", "query", {"type": "integer"})])},
     # nothing at all
     "/none": {"get": dict(_OK)},
+    # string header (cannot be negated) next to an integer cookie (can), and the other way round
+    "/ck": {"get": dict(_OK, parameters=[_p("X-S", "header", {"type": "string"}), _p("c", "cookie", {"type": "integer"})])},
+    "/kc": {"get": dict(_OK, parameters=[_p("X-N", "header", {"type": "integer"}), _p("c", "cookie", {"type": "string"})])},
 }}
 SCHEMA = schemathesis.openapi.from_dict(RAW)
 det.pin(oh)  # openapi_cases reads time.monotonic() twice
@@ -60,12 +63,12 @@ def _make_case(*, operation, **kwargs):
 SCHEMA.make_case = _make_case
 _real_can_negate = oh.can_negate
 oh.can_negate = lambda schema: untraced(_real_can_negate, schema)  # hypothesis-jsonschema's canonicalish on a concrete schema: run natively
-OPS = [SCHEMA["/all/{id}"]["POST"], SCHEMA["/str/{id}"]["POST"], SCHEMA["/q"]["GET"], SCHEMA["/none"]["GET"]]
+OPS = [SCHEMA["/all/{id}"]["POST"], SCHEMA["/str/{id}"]["POST"], SCHEMA["/q"]["GET"], SCHEMA["/none"]["GET"], SCHEMA["/ck"]["GET"], SCHEMA["/kc"]["GET"]]
 for _op in OPS:
     list(_op.iter_parameters())
 # which locations exist per operation / can be negated
-HAS = [{"path", "query", "header", "cookie", "body"}, {"path", "header", "body"}, {"query"}, set()]
-NEGATABLE = [{"path", "query", "header", "cookie", "body"}, set(), {"query"}, set()]
+HAS = [{"path", "query", "header", "cookie", "body"}, {"path", "header", "body"}, {"query"}, set(), {"header", "cookie"}, {"header", "cookie"}]
+NEGATABLE = [{"path", "query", "header", "cookie", "body"}, set(), {"query"}, set(), {"cookie"}, {"header"}]
 CASES_BODY = oh.openapi_cases(operation=OPS[0], generation_config=GenerationConfig()).wrapped_strategy.definition
 
 
@@ -100,7 +103,7 @@ class Rejected(Exception):
     pass
 
 
-LABEL_OP = param(0) % 4  # operation shape: enumerated by the driver
+LABEL_OP = param(0) % 6  # operation shape: enumerated by the driver
 
 
 def labels(op: int, only_negative: bool, d_path: bool, d_query: bool, d_header: bool, d_cookie: bool, d_body: bool) -> bool:
@@ -158,6 +161,10 @@ def labels(op: int, only_negative: bool, d_path: bool, d_query: bool, d_header: 
     # parts that cannot be negated must have been generated by the positive factory
     for loc, factory in drawn:
         if factory == "negative" and loc not in negatable:
+            return False
+    # a part that can be negated is handed to the negative generator (the operation is not skipped while something can be violated)
+    for loc in negatable:
+        if (loc, "negative") not in drawn and (loc, "positive") in drawn:
             return False
     if not negated:
         # nothing could be violated: reported as skipped (modes=[negative]) or discarded - never a case labelled negative
@@ -241,6 +248,26 @@ def output_filter_empty_query() -> bool:
     keep = _capture_filter({"type": "object", "properties": {"v": {"type": "integer"}}, "required": ["v"]}, "query")
     # an empty query string is not a negative case even though `{}` violates `required`
     return keep({}) is False and keep({"v": "x"}) is True and keep({"v": 1}) is False
+
+
+QUERY_VALUES = [None, [], [None], [None, None], "", "x", 0, False, [0], [None, "a"], ["", None], 1.5]
+
+
+def empty_query_shapes(k1: int, k2: int, two: bool) -> bool:
+    """
+    pre: 0 <= k1 < len(QUERY_VALUES) and 0 <= k2 < len(QUERY_VALUES)
+    post: _
+    """
+    query = {"a": pick(QUERY_VALUES, k1)}
+    if two:
+        query["b"] = pick(QUERY_VALUES, k2)
+
+    def contributes(value):
+        # what the HTTP client puts on the wire (requests: None values, also inside lists, are not sent; everything else is, '' as `a=`)
+        items = value if isinstance(value, list) else [value]
+        return any(item is not None for item in items)
+
+    return neg.is_non_empty_query(query) == any(contributes(v) for v in query.values())
 
 
 # ---------------------------------------------------------------------------------------------------------------
@@ -361,18 +388,21 @@ def mutate_kernel(c1: int, c2: int, c3: int, c4: int, b1: bool, b2: bool, b3: bo
 
 OBLIGATIONS = [
     Ob(fn="labels", clause="a negative case is labelled negative, at least one part is labelled negative, every part labelled negative is present and came from the negative generator, parts that cannot be negated are generated positively; with nothing to violate the operation is skipped (or the draw discarded), never sent as valid-but-negative",
-       timeout={"quick": 300, "thorough": 600}, params=range(4), param_names=["everything negatable", "string-only path/header, {} body", "query only", "no inputs"],
+       timeout={"quick": 300, "thorough": 600}, params=range(6), param_names=["everything negatable", "string-only path/header, {} body", "query only", "no inputs", "string header + integer cookie", "integer header + string cookie"],
        functions=["schemathesis.specs.openapi._hypothesis.openapi_cases (composite body)", "schemathesis.specs.openapi._hypothesis.generate_parameter",
                                                                          "schemathesis.specs.openapi._hypothesis.get_parameters_value", "schemathesis.specs.openapi._hypothesis.any_negated_values",
                                                                          "schemathesis.specs.openapi._hypothesis.can_negate_path_parameters", "schemathesis.specs.openapi._hypothesis.can_negate_headers",
                                                                          "schemathesis.specs.openapi._hypothesis.ValueContainer"],
-       symbolic="operation (4 shapes: everything negatable / string-only headers+path and `{}` body / query only / nothing), modes [negative] or [positive, negative], presence of a drawn value per location",
-       bounds="4 operations x 2^5 presence patterns x 2 mode lists",
+       symbolic="operation (6 shapes: everything negatable / string-only headers+path and `{}` body / query only / nothing / string header + integer cookie / integer header + string cookie), modes [negative] or [positive, negative], presence of a drawn value per location",
+       bounds="6 operations x 2^5 presence patterns x 2 mode lists",
        stubs=["draw() returns scripted values; strategy factories replaced by markers naming the generator that built them", "hooks bypassed", "can_negate (hypothesis-jsonschema canonicalish on concrete schemas) evaluated outside tracing", "clock and case id pinned"],
        outside=["that a drawn instance of a mutated schema is invalid (run-time filter; its dialect is checked by output_filter)"]),
     Ob(fn="output_filter", clause="every part labelled negative violates the declared schema: the output filter judges by the declared (draft 4) meaning, incl. boolean exclusiveMinimum",
        timeout={"quick": 300, "thorough": 600}, functions=["schemathesis.specs.openapi.negative.negative_schema", "schemathesis.specs.openapi.negative.get_validator"],
        symbolic="the generated number, the declared minimum, the exclusive flag, query or body", bounds="-50..50", stubs=["mutated()/from_schema() replaced by recorders to capture the filter"]),
+    Ob(fn="empty_query_shapes", clause="a query that puts nothing on the wire (all values null, empty lists, lists of nulls) is never kept as a negative case; any other is judged non-empty",
+       timeout=120, functions=["schemathesis.specs.openapi.negative.is_non_empty_query"], symbolic="one or two query parameters, each one of 12 value shapes (null, [], [null], [null, null], '', text, 0, false, [0], mixed lists, float)",
+       bounds="<= 2 parameters x 12 shapes", stubs=["urllib.parse.urlencode on the concrete pairs"]),
     Ob(fn="output_filter_empty_query", clause="an empty query string is never a negative case", timeout=60, functions=["schemathesis.specs.openapi.negative.is_non_empty_query"],
        symbolic="(none)", bounds="3 concrete values"),
     Ob(fn="mutate_kernel", clause="a successful mutation really changes a constraint, never modifies the original schema, and keeps non-body locations object-typed",
